@@ -617,6 +617,8 @@ def _c20(bindir, tier, seed):
     jobs = []
     for area, n, cases_q, cases_t in (("format", 8, 30, 1500), ("writer", 3, 20000, 400000), ("sinks", 2, 1500, 40000), ("queue", 2, 1500, 30000), ("misc", 1, 200, 2000)):
         jobs += shards(bindir, "hostile_driver", "C20-" + area, seed, n, ["--area", area, "--cases", str(cases_q if q else cases_t)], 3400)
+    # memory-safety observer: a compact tour of the whole public API under Miri (UB, data races, leaks of the paths reached)
+    jobs.append(miri_job("C20-miri-api", "C20", "miri_api", [], 2 if q else 32, seed, 1500 if q else 7200, fail_marker="API-ORACLE-FAILED"))
     if not q:
         jobs.append(fuzz_job("C20", "fz_hostile", "hostile_driver", seed, 180, 8))
     return jobs
